@@ -61,13 +61,12 @@ Definition bytesToItemIndexArray (buf : option (list N)) : list N + derr :=
   | Some b =>
       if (length b <? 4)%nat then inr ErrInvalid
       else
-        let size := N.to_nat (le_val (firstn 4 b)) in
-        match size with
-        | O => inl []
-        | _ =>
-            let b' := skipn 4 b in
-            if (length b' <? size * 8)%nat then inr ErrInvalid else inl (chunks8 size b')
-        end
+        let size := le_val (firstn 4 b) in            (* compared in N: never build a huge nat *)
+        if N.eqb size 0 then inl []
+        else
+          let b' := skipn 4 b in
+          if N.ltb (N.of_nat (length b')) (size * 8) then inr ErrInvalid
+          else inl (chunks8 (N.to_nat size) b')
   end.
 
 (* the request encoding used by the harness (uint64, 8 bytes little endian; like the package's own tests) *)
